@@ -3,7 +3,7 @@
 From Coq Require Import List Arith ZArith Bool Lia Permutation Wf_nat.
 From MptV Require Import C14.NodeModel C14.NodeSpec C14.NodeRep C14.NodeFocus C14.NodeExec
   C14.NodeLocal C14.NodeInv C14.NodeRefine C14.NodeFree C14.NodeClone C14.NodeInsert C14.NodeInsertName
-  C14.NodeWalk.
+  C14.NodeWalk C14.NodeEnd.
 Import ListNotations.
 Local Open Scope nat_scope.
 
@@ -11,7 +11,7 @@ Local Open Scope nat_scope.
 Definition proved (o : op) : Prop :=
   match o with
   | ONew _ _ | OAfter _ _ | OBefore _ _ | OAdd _ _ _ _ | OIns _ _ _ _ | OUnlink _
-  | OClone _ | OLClone _ | OTClone _ | OClear _ | ODestroy _ | ORelink _ | OTrav _ _ _ => True
+  | OClone _ | OLClone _ | OTClone _ | OClear _ | ODestroy _ | ORelink _ | OTrav _ _ _ | OEnd => True
   | _ => False
   end.
 
@@ -31,6 +31,7 @@ Proof.
   - apply step_destroy.
   - apply step_relink.
   - apply step_trav.
+  - apply step_end.
 Qed.
 
 (* model trace and specification trace agree step by step: no fault, same result,
@@ -66,30 +67,6 @@ Lemma wf_step o h : proved o -> wf h -> exists h' out, mstep h o = ROk (h', out)
 Proof.
   intros P [s I]. destruct (step_proved o P h s I) as (h' & E & I').
   exists h', (snd (sstep s o)). split; [exact E|]. exists (fst (sstep s o)). exact I'.
-Qed.
-
-(* every id handed out so far is either a node of the forest (live cell) or has
-   been freed, exactly once; freed cells are gone *)
-Lemma inv_released_once h s : inv h s ->
-  NoDup (freed h) /\
-  (forall i, In i (freed h) -> cells h i = None /\ ~ In i (ids_st (lists s))) /\
-  (forall i, i < nextid h -> In i (freed h) \/ (exists nd, cells h i = Some nd)).
-Proof.
-  intros I. pose proof (i_perm _ _ I) as P.
-  assert (N : NoDup (ids_st (lists s) ++ sfreed s)).
-  { eapply Permutation_NoDup; [symmetry; exact P|apply seq_NoDup]. }
-  apply NoDup_app_inv in N. destruct N as (N1 & N2 & Dj).
-  split; [eapply Permutation_NoDup; [symmetry; exact (i_freed _ _ I)|exact N2]|]. split.
-  - intros i Hi. assert (Hs : In i (sfreed s)) by (eapply Permutation_in; [exact (i_freed _ _ I)|exact Hi]).
-    assert (Ni : ~ In i (ids_st (lists s))) by (intros K; exact (Dj _ K Hs)).
-    split; [|exact Ni]. destruct (cells h i) eqn:C; [|reflexivity].
-    exfalso. apply Ni. apply (i_dom _ _ I). rewrite C. discriminate.
-  - intros i Hi. rewrite (i_cnt _ _ I) in Hi.
-    assert (K : In i (ids_st (lists s) ++ sfreed s)).
-    { eapply Permutation_in; [symmetry; exact P|]. apply in_seq. lia. }
-    apply in_app_or in K. destruct K as [K|K].
-    + right. exact (rep_cell_some _ _ _ (i_rep _ _ I) K).
-    + left. eapply Permutation_in; [symmetry; exact (i_freed _ _ I)|exact K].
 Qed.
 
 (* clone: the new top-level list has the shape of the source at every depth, and
